@@ -135,7 +135,7 @@ type c17Builder struct {
 	rng   *rand.Rand
 	s     *c17Schema
 	types *c17NameSet // global type-name scope (canonical)
-	base  string   // import base of the project
+	base  string      // import base of the project
 	objs  []*c17Type
 	query *c17Type
 	mut   *c17Type
@@ -144,7 +144,7 @@ type c17Builder struct {
 	iface, iface2, union, enum, input, input2 string
 	fdir                                      []string // FIELD_DEFINITION directive applications available
 	needHand                                  map[string]bool
-	models                                    map[string]string // GraphQL type -> Go type for the models: block
+	models                                    map[string]string   // GraphQL type -> Go type for the models: block
 	resolverFields                            map[string][]string // GraphQL type -> fields with `resolver: true` in the models: block
 }
 
